@@ -199,7 +199,10 @@ class Impl:
                 kw['ref_unit_symbol'] = d['ref']
             if d.get('quantum') is not None:
                 kw['quantum'] = W.number(('frac', d['quantum']))
-            cls = self.meta(d['name'], (self.q.Quantity,), {}, **kw)
+            # 'base': declared as a Python sub-class of a concrete quantity type; the
+            # library treats it as a separate type (own units, own directory entry)
+            base = self.classes[d['base']] if d.get('base') else self.q.Quantity
+            cls = self.meta(d['name'], (base,), {}, **kw)
             self.classes[d['name']] = cls
             if cls.ref_unit is not None:
                 self.units[cls.ref_unit.symbol] = cls.ref_unit
